@@ -28,11 +28,11 @@ Proof.
   assert (SE0 : StdE cx ps0) by apply stde_walker.
   assert (SK : skipn 0 s = unparse_items l ++ (tr ++ stray_text c ++ g)) by reflexivity.
   pose proof (skipn_shift _ _ _ _ SK) as SK1.
-  pose proof (stray_step s cx true ps0 top_opts (fst A) _ tr c g 0 SE0 (opts_ok_top ps0) W WF
+  pose proof (stray_step s cx true ps0 top_opts (fst A) _ tr c g 0 SE0 (opts_ok_2 _ _ (opts_ok_top ps0)) W WF
                 ltac:(destruct c; exact I) SK1) as H.
   rewrite <- (hd_error_stray tr c g) in OKL.
   assert (NR : forall e p, @PErr out e p <> OutOfFuel) by discriminate.
-  pose proof (items_sim_t s cx true l ps0 top_opts cs_empty 0 _ 1 _ (proj1 SE0) (opts_ok_top ps0)
+  pose proof (items_sim_t s cx true l ps0 top_opts cs_empty 0 _ 1 _ (proj1 SE0) (opts_ok_2 _ _ (opts_ok_top ps0))
                 (NR _ _) OKL SK H) as H1.
   assert (LS : length s = length (unparse_items l) + (length tr + (length (stray_text c) + length g))).
   { unfold s. rewrite !app_length. reflexivity. }
@@ -97,7 +97,7 @@ Proof.
   assert (NR : run s true cx k t <> OutOfFuel).
   { apply (run_fuel_enough s true cx 8); [lia | lia | exact TOK|].
     unfold need, W, cst, k, parse_fuel, t. cbn [task_pos]. lia. }
-  pose proof (items_sim_t s cx true l ps0 top_opts cs_empty 0 fol k _ (std_walker cx) (opts_ok_top ps0) NR OKL SK
+  pose proof (items_sim_t s cx true l ps0 top_opts cs_empty 0 fol k _ (std_walker cx) (opts_ok_2 _ _ (opts_ok_top ps0)) NR OKL SK
                 eq_refl) as H1.
   replace (k + 8 * length (unparse_items l)) with (parse_fuel s - 1) in H1 by (unfold k, parse_fuel, n; lia).
   pose proof (coll_keeps s cx k ps0 top_opts A (0 + n)) as KA. fold t in KA.
